@@ -552,3 +552,27 @@ Proof.
   intros HR Hb. destruct (str_path_key s 46%N) as (p & Hp & Hw & He).
   unfold cfg_get. rewrite Hp. cbn [cbind]. rewrite (getp_reads_spec g h b p ty HR Hb Hw), He. reflexivity.
 Qed.
+
+(* ================================================================ the value itself (TypeConvertablePtr / get<convertable *>) *)
+(* whatever its length and whichever store holds it, the value handed out as a
+   convertable is the value most recently assigned to exactly that key *)
+Definition assigned_view (e : entry) : gval :=
+  match e with Exists (Some v) => GText v | _ => GMissing end.
+
+Lemma get_view_conv cxx e : get_view cxx GConv e = assigned_view e.
+Proof. destruct e as [|[v|]]; reflexivity. Qed.
+
+Lemma getp_conv_assigned g h b p : R g h -> hpath b -> pwf p ->
+  cfg_getp g b p GConv = Done (assigned_view (squery h (elems b) (elems p))).
+Proof. intros HR Hb Hw. rewrite (getp_reads_spec g h b p GConv HR Hb Hw), get_view_conv. reflexivity. Qed.
+
+Lemma get_conv_assigned g h b s : R g h -> hpath b ->
+  cfg_get g b s GConv = Done (assigned_view (squery h (elems b) (str_key s 46%N))).
+Proof. intros HR Hb. rewrite (get_reads_spec g h b s GConv HR Hb), get_view_conv. reflexivity. Qed.
+
+Lemma root_getp_conv_assigned a h p : RI a h -> pwf p -> elems p <> [] ->
+  root_getp a p GConv = Done (assigned_view (slook h (elems p))).
+Proof.
+  intros [_ HRl] Hw Hne. unfold root_getp. rewrite (root_query_spec a p Hw Hne). cbn [cbind].
+  rewrite get_view_conv, (HRl _ Hne). reflexivity.
+Qed.
